@@ -226,5 +226,26 @@ def check(ctx):
                 why = (" [exception: %s]" % allowed[key]) if bad else ""
                 ctx.ob("C15.g", "result-handled:%s<-%s" % (M.short_name(fn.name), callee), True, "used by %s%s" % (sorted({u[1] or u[0] for u in uses})[:4], why), fn.loc(bb))
     ctx.floor("C15.g", "Result-returning calls on the build path", n, 20)
+    # A Result is also an IntoIterator that yields nothing for Err: flattening adaptors instantiated with a
+    # Result<_, ScnrError> (flat_map / flatten / `for x in result` / Result::iter) discard the error silently.
+    n_calls = 0
+    for k in sorted(reach):
+        fn = F.fns[k]
+        if is_derived(fn):
+            continue
+        for bb, t in fn.calls():
+            n_calls += 1
+            nm = M.call_name(t)
+            drops = None
+            m = re.search(r"Iterator>::flat_map::<(std::result::Result<.*?errors::ScnrError>)", nm)
+            if m:
+                drops = "flat_map over a closure returning %s" % m.group(1)[:80]
+            elif re.search(r"^<std::result::Result<.*errors::ScnrError> as std::iter::IntoIterator>::into_iter|^std::result::Result::<.*errors::ScnrError>::(iter|iter_mut)$", nm):
+                drops = "a Result<_, ScnrError> is iterated"
+            elif re.search(r"Iterator>::flatten$", nm) and re.search(r"std::result::Result<[^|]*errors::ScnrError>", t.get("dest", {}).get("ty", "")):
+                drops = "flatten over items of type Result<_, ScnrError>"
+            if drops:
+                ctx.ob("C15.g", "result-not-flattened-away:%s" % M.short_name(fn.name), False, "%s in %s: an Err is dropped and the construct compiles to something else" % (drops, fn.name), fn.loc(bb))
+    ctx.floor("C15.g", "calls inspected for error-discarding adaptors on the build path", n_calls, 300)
     from .common import cache_foundation
     cache_foundation(ctx)
